@@ -70,7 +70,12 @@ def build_and_validate_headers(headers: Iterable[Tuple[bytes, bytes]]) -> List[T
     for name, value in headers:
         if name[0] == b":"[0]:
             raise ValueError("Pseudo headers are not valid")
-        validated_headers.append((bytes(name).strip(), bytes(value).strip()))
+        validated_name, validated_value = bytes(name).strip(), bytes(value).strip()
+        for char in (b"\r", b"\n", b"\x00"):
+            # h11 refuses these itself, the HTTP/2 & HTTP/3 encoders do not
+            if char in validated_name or char in validated_value:
+                raise ValueError("Header names and values must not contain CR, LF or NUL")
+        validated_headers.append((validated_name, validated_value))
     return validated_headers
 
 
